@@ -145,11 +145,14 @@ pub struct Focus {
     pub boundaries: bool,
     pub max_ops: usize,
     pub selection: u32,
+    /// allow registering an existing input once more with another witness kind (C10 only: elsewhere a re-added
+    /// input is an exact repeat, the one precondition on input operations)
+    pub re_register: bool,
 }
 
 impl Focus {
     pub fn general() -> Focus {
-        Focus { scripts: 70, certs: 60, assets: 90, many_assets: false, governance: 40, boundaries: true, max_ops: 14, selection: 70 }
+        Focus { scripts: 70, certs: 60, assets: 90, many_assets: false, governance: 40, boundaries: true, max_ops: 14, selection: 70, re_register: false }
     }
 }
 
@@ -527,6 +530,34 @@ impl<'a> Run<'a> {
             self.track_input(&u);
             self.ops.push(format!("key_input(k{},kind{},route{},{}{})", k, kind, route, coin, if u.assets.is_empty() { String::new() } else { format!("+{}assets", u.assets.len()) }));
         }
+        let ib = self.ib.clone();
+        self.tb.set_inputs(&ib);
+    }
+
+    /// registers an outpoint that is already an input once more: an exact repeat, or as a key input with
+    /// another key (the last registration decides how the input is locked)
+    fn op_re_add_input(&mut self) {
+        let keys: Vec<Vec<u8>> = self.w.utxos.iter().filter(|(k, _)| self.items.iter().any(|it| it.purpose == Purpose::Spend && &it.target == *k) || matches!(self.w.utxos[*k].lock, Lock::Key(_))).map(|(k, _)| k.clone()).collect();
+        let in_builder: Vec<Vec<u8>> = {
+            let ins = self.ib.inputs();
+            (0..ins.len()).map(|i| ins.get(i).to_bytes()).collect()
+        };
+        let cands: Vec<Vec<u8>> = keys.into_iter().filter(|k| in_builder.contains(k)).collect();
+        if cands.is_empty() {
+            return;
+        }
+        let key = cands[self.t.choose(cands.len())].clone();
+        let u = self.w.utxos[&key].clone();
+        let amt = u.output.amount();
+        let k = self.t.choose(6);
+        let h = self.w.keys[k].hash.clone();
+        self.ib.add_key_input(&h, &u.input, &amt);
+        // the model follows the last registration
+        self.items.retain(|it| !(it.purpose == Purpose::Spend && it.target == key));
+        if let Some(x) = self.w.utxos.get_mut(&key) {
+            x.lock = Lock::Key(k);
+        }
+        self.ops.push(format!("re_add_as_key_input(k{})", k));
         let ib = self.ib.clone();
         self.tb.set_inputs(&ib);
     }
@@ -1046,7 +1077,7 @@ pub fn run(tape: &[u8], focus: Focus) -> Option<Outcome> {
     let balancing = pt.choose(8);
     let strategy_k = pt.choose(4);
     let fund = pt.chance(230);
-    let fund_extra = pt.choose(6);
+    let fund_extra = pt.choose(10).min(7 + 0) % 8;
     let skip_hash = pt.chance(12);
     let collateral_route = pt.choose(5);
     let cm_variant = pt.choose(3);
@@ -1086,7 +1117,7 @@ pub fn run(tape: &[u8], focus: Focus) -> Option<Outcome> {
         let c = focus.certs;
         let gv = focus.governance;
         // weighted choice of the operation kind
-        let weights: [(u32, u8); 12] = [(50, 0), (12, 1), (s / 2, 2), (s, 3), (70, 4), (c, 5), (c / 2, 6), (s / 2 + 20, 7), (gv / 2, 8), (gv / 2, 9), (40, 10), (0, 11)];
+        let weights: [(u32, u8); 12] = [(50, 0), (12, 1), (s / 2, 2), (s, 3), (70, 4), (c, 5), (c / 2, 6), (s / 2 + 20, 7), (gv / 2, 8), (gv / 2, 9), (40, 10), (if focus.re_register { s / 8 + 6 } else { 0 }, 11)];
         let total: u32 = weights.iter().map(|w| w.0).sum();
         let mut x = r.t.choose(total as usize) as u32;
         let mut kind = 0u8;
@@ -1108,6 +1139,7 @@ pub fn run(tape: &[u8], focus: Focus) -> Option<Outcome> {
             7 => r.op_mint(),
             8 => r.op_vote(),
             9 => r.op_proposal(),
+            11 => r.op_re_add_input(),
             _ => r.op_misc(),
         }
     }
@@ -1192,13 +1224,23 @@ pub fn run(tape: &[u8], focus: Focus) -> Option<Outcome> {
         let need = r.out_coin + dep + r.deposits.saturating_sub(0) + est_fee + 2000;
         let have = r.in_coin + imp;
         if need > have {
+            // thresholds of the change logic, estimated with the library's own min-ADA (generator side only)
+            let cost = DataCost::new_coins_per_byte(&bn(r.w.params.cpb));
+            let spare: BTreeMap<AssetId, u64> = r.spare_assets.iter().filter(|(_, q)| **q > 0).map(|(k, q)| (k.clone(), *q)).collect();
+            let pure_min = catch(|| min_ada_for_output(&TransactionOutput::new(&change_addr, &Value::new(&bn(0))), &cost)).ok().and_then(|x| x.ok()).map(|c| u64::from(c) as u128).unwrap_or(1_000_000);
+            let asset_min = catch(|| min_ada_for_output(&TransactionOutput::new(&change_addr, &World::mk_value(0, &spare)), &cost)).ok().and_then(|x| x.ok()).map(|c| u64::from(c) as u128).unwrap_or(pure_min);
+            let delta = r.t.range_u64(0, 16_000) as u128;
             let extra: u128 = match fund_extra {
                 0 => 0,
                 1 => 1_000_000,
                 2 => 200,
                 3 => 50_000_000,
                 4 => (r.w.params.cpb as u128) * 230,
-                _ => 3_000_000_000,
+                5 => 3_000_000_000,
+                // just around "is a change output viable": min-ADA of the change output +- a little
+                6 => (asset_min + delta).saturating_sub(4_000),
+                // just around "is a separate pure-ADA change output viable" (prefer_pure_change)
+                _ => (asset_min + pure_min + delta).saturating_sub(2_000),
             };
             let coin = (need - have + extra).min(u64::MAX as u128 / 4) as u64;
             let k = r.t.choose(6);
